@@ -78,7 +78,7 @@ def main():
     hook_shas = [l.split()[0] for l in hooks_commits if "verif hook" in l]
     m = {
         "version": 1,
-        "setup_cmd": "cd /verif && GOFLAGS=-mod=mod GOPROXY=off GOSUMDB=off GOTOOLCHAIN=local go build ./internal/... && mkdir -p .bin .out evidence replay",
+        "setup_cmd": "cd /verif && GOFLAGS=-mod=mod GOPROXY=off GOSUMDB=off GOTOOLCHAIN=local go build -tags verif ./internal/... && mkdir -p .bin .out evidence replay",
         "hooks": {
             "guard": "verif",
             "enable": "go build -tags verif (run.sh builds every check binary against /repo's working tree through the module replace directive in /verif/go.mod)",
